@@ -1029,3 +1029,238 @@ Proof.
   apply become_follower_fields in H. destruct H as (A & _ & B & _ & _ & _ & _ & _ & L).
   repeat split; assumption.
 Qed.
+
+(* ------------------------------------------------------------------ *)
+(* 2. pending_conf_index bounds every membership-change entry above applied *)
+
+(* every entry physically held by the log: unstable entries and stored entries *)
+Definition all_ents (l : raft_log) (e : entry) : Prop :=
+  In e (u_entries (unst l)) \/ In e (entries (store l)).
+
+(* well-formedness used once (at become_leader): no entry lies beyond last_index *)
+Definition LogBounded (l : raft_log) : Prop :=
+  forall e, all_ents l e -> e_index e <= last_index l.
+
+Definition ConfBoundP (l : raft_log) (p : N) : Prop :=
+  forall e, all_ents l e -> is_conf_entry e = true -> applied l < e_index e -> e_index e <= p.
+
+Definition ConfBound (r : raft) : Prop := ConfBoundP (r_log r) (r_pending_conf_index r).
+
+Lemma all_ents_same_ents l l' e : same_ents l l' -> all_ents l' e -> all_ents l e.
+Proof. intros (A & B & _). unfold all_ents. rewrite A, B. auto. Qed.
+
+Lemma ConfBoundP_same_ents l l' p : same_ents l l' -> ConfBoundP l p -> ConfBoundP l' p.
+Proof.
+  intros Hs H e He Hc Ha. apply H; [eapply all_ents_same_ents; eassumption|exact Hc|].
+  destruct Hs as (_ & _ & <-). exact Ha.
+Qed.
+
+Lemma LogBounded_same_ents l l' : same_ents l l' -> LogBounded l -> LogBounded l'.
+Proof.
+  intros Hs H e He. rewrite (last_index_same_ents _ _ Hs). apply H.
+  eapply all_ents_same_ents; eassumption.
+Qed.
+
+Lemma ConfBoundP_mono l p p' : p <= p' -> ConfBoundP l p -> ConfBoundP l p'.
+Proof. intros Hle H e He Hc Ha. specialize (H e He Hc Ha). lia. Qed.
+
+(* nothing pending: no membership-change entry above applied at all *)
+Lemma ConfBoundP_none l p p' : p <= applied l -> ConfBoundP l p -> ConfBoundP l p'.
+Proof. intros Hle H e He Hc Ha. specialize (H e He Hc Ha). lia. Qed.
+
+Lemma ConfBoundP_applied_up l a p :
+  applied l <= a -> ConfBoundP l p -> ConfBoundP (set_applied l a) p.
+Proof. intros Hle H e He Hc Ha. apply H; [exact He|exact Hc|]. cbn in Ha. lia. Qed.
+
+(* control fields *)
+Definition same_ctl (r r' : raft) : Prop :=
+  r_state r' = r_state r /\ r_pending_conf_index r' = r_pending_conf_index r /\
+  conf_of r' = conf_of r /\ r_id r' = r_id r /\ r_promotable r' = r_promotable r /\
+  r_term r' = r_term r.
+
+Lemma fr_intro r r' : same_ctl r r' -> same_ents (r_log r) (r_log r') -> fr r r'.
+Proof. unfold same_ctl, fr. intuition. Qed.
+
+Lemma fr_ConfBound r r' : fr r r' -> ConfBound r -> ConfBound r'.
+Proof.
+  intros (_ & Hp & He & _) H. unfold ConfBound. rewrite Hp.
+  eapply ConfBoundP_same_ents; eassumption.
+Qed.
+
+(* --- log_append / stamp --- *)
+
+Lemma In_firstn_in {A} (k : nat) (l : list A) e : In e (firstn k l) -> In e l.
+Proof. intros H. rewrite <- (firstn_skipn k l). apply in_or_app. left; exact H. Qed.
+
+Lemma u_taa_spec u ents u' :
+  u_truncate_and_append u ents = Ok u' -> ents <> [] ->
+  (forall e, In e (u_entries u') -> In e (u_entries u) \/ In e ents) /\
+  u_maybe_last_index u' = Some (e_index (hd entry_default ents) + N.of_nat (length ents) - 1) /\
+  u_snapshot u' = u_snapshot u.
+Proof.
+  unfold u_truncate_and_append. intros H Hne. destruct ents as [|e0 ents0]; [congruence|].
+  cbn [hd]. inv_bind H. inversion H; subst. clear H. cbn [u_entries u_snapshot].
+  assert (Hx' : (forall e, In e (u_entries x) -> In e (u_entries u)) /\
+                u_offset x + N.of_nat (length (u_entries x)) = e_index e0 /\
+                u_snapshot x = u_snapshot u).
+  { destruct (e_index e0 =? u_offset u + N.of_nat (length (u_entries u))) eqn:E1.
+    { inversion Hx; subst. split; [auto|]. split; [lia|reflexivity]. }
+    destruct (e_index e0 <=? u_offset u) eqn:E2.
+    { inversion Hx; subst. cbn. split; [intros e []|]. split; [lia|reflexivity]. }
+    inv_bind Hx. inversion Hx; subst. cbn.
+    unfold u_must_check_outofbounds in Hx0.
+    destruct (e_index e0 <? u_offset u); [discriminate|].
+    match type of Hx0 with (if ?c then _ else _) = _ => destruct c eqn:E3 end; [discriminate|].
+    split; [intros e He; eapply In_firstn_in; exact He|].
+    split; [|reflexivity].
+    rewrite firstn_length. lia. }
+  destruct Hx' as (Hin & Hoff & Hsn).
+  split.
+  { intros e He. apply in_app_or in He. destruct He as [He|He]; [left; apply Hin; exact He|right; exact He]. }
+  split; [|exact Hsn].
+  unfold u_maybe_last_index. cbn [u_entries u_offset u_snapshot].
+  destruct (u_entries x ++ e0 :: ents0) eqn:Eapp.
+  { apply app_eq_nil in Eapp. destruct Eapp; discriminate. }
+  rewrite <- Eapp, app_length. cbn [length]. f_equal. lia.
+Qed.
+
+Lemma log_append_spec l ents l' x :
+  log_append l ents = Ok (l', x) -> ents <> [] ->
+  store l' = store l /\ applied l' = applied l /\ committed l' = committed l /\
+  (forall e, In e (u_entries (unst l')) -> In e (u_entries (unst l)) \/ In e ents) /\
+  last_index l' = e_index (hd entry_default ents) + N.of_nat (length ents) - 1.
+Proof.
+  unfold log_append. intros H Hne. destruct ents as [|e0 ents0]; [congruence|].
+  destruct (e_index e0 =? 0); [discriminate|].
+  destruct (e_index e0 - 1 <? committed l); [discriminate|].
+  inv_bind H. inversion H; subst. clear H.
+  apply u_taa_spec in Hx; [|discriminate]. destruct Hx as (A & B & _).
+  cbn [store applied committed unst set_unst]. repeat split; try assumption.
+  unfold last_index. cbn [unst set_unst]. rewrite B. reflexivity.
+Qed.
+
+Lemma stamp_nth es : forall t n k e',
+  nth_error (stamp es t n) k = Some e' ->
+  exists e, nth_error es k = Some e /\
+    e' = mkEntry (e_type e) t (n + N.of_nat k) (e_data e) (e_context e).
+Proof.
+  induction es as [|e rest IH]; intros t n k e' H; [destruct k; discriminate|].
+  cbn [stamp] in H. destruct k as [|k].
+  - cbn in H. inversion H; subst. exists e. split; [reflexivity|]. f_equal. lia.
+  - cbn [nth_error] in H. apply IH in H. destruct H as (e1 & A & B). exists e1. split; [exact A|].
+    rewrite B. f_equal. lia.
+Qed.
+
+Lemma stamp_length es : forall t n, length (stamp es t n) = length es.
+Proof. induction es; intros; cbn; [reflexivity|f_equal; auto]. Qed.
+
+Lemma stamp_hd e es t n : e_index (hd entry_default (stamp (e :: es) t n)) = n.
+Proof. reflexivity. Qed.
+
+Lemma is_conf_entry_mk ty t i d c : is_conf_entry (mkEntry ty t i d c) = (ty =? 1) || (ty =? 2).
+Proof. reflexivity. Qed.
+
+(* appending stamped entries whose membership-change members are covered by p *)
+Lemma log_append_stamp_last l es t l' x :
+  log_append l (stamp es t (last_index l + 1)) = Ok (l', x) -> es <> [] ->
+  last_index l' = last_index l + N.of_nat (length es).
+Proof.
+  intros H Hne.
+  assert (Hne' : stamp es t (last_index l + 1) <> []) by (destruct es; [congruence|discriminate]).
+  apply log_append_spec in H; [|exact Hne']. destruct H as (_ & _ & _ & _ & Hli).
+  rewrite Hli, stamp_length. destruct es as [|e0 es0]; [congruence|].
+  rewrite stamp_hd. cbn [length]. lia.
+Qed.
+
+Lemma ConfBoundP_append l es t l' x p :
+  log_append l (stamp es t (last_index l + 1)) = Ok (l', x) -> es <> [] ->
+  ConfBoundP l p ->
+  (forall k e, nth_error es k = Some e -> is_conf_entry e = true ->
+     last_index l + N.of_nat k + 1 <= p) ->
+  ConfBoundP l' p.
+Proof.
+  intros H Hne Hcb Hnew.
+  assert (Hne' : stamp es t (last_index l + 1) <> []) by (destruct es; [congruence|discriminate]).
+  apply log_append_spec in H; [|exact Hne']. destruct H as (Hst & Hap & _ & Hin & Hli).
+  intros e He Hc Ha. rewrite Hap in Ha. destruct He as [He|He].
+  - apply Hin in He. destruct He as [He|He].
+    + apply Hcb; [left; exact He|exact Hc|exact Ha].
+    + apply In_nth_error in He. destruct He as (k & Hk). apply stamp_nth in Hk.
+      destruct Hk as (e1 & Hk1 & ->). cbn [e_index]. rewrite is_conf_entry_mk in Hc.
+      specialize (Hnew k e1 Hk1 Hc). lia.
+  - rewrite Hst in He. apply Hcb; [right; exact He|exact Hc|exact Ha].
+Qed.
+
+(* --- append_entry --- *)
+Opaque log_append last_index stamp.
+
+Lemma maybe_increase_uncommitted_size_fr r es r1 ok :
+  maybe_increase_uncommitted_size r es = (r1, ok) ->
+  r_log r1 = r_log r /\ same_ctl r r1 /\ r_msgs r1 = r_msgs r.
+Proof.
+  unfold maybe_increase_uncommitted_size. intros H.
+  destruct (r_max_uncommitted_size r =? u64_max). { inversion H; subst. repeat split. }
+  match type of H with (if ?c then _ else _) = _ => destruct c end; inversion H; subst; repeat split.
+Qed.
+
+Lemma append_entry_spec r es r' ok :
+  append_entry r es = Ok (r', ok) ->
+  same_ctl r r' /\ r_msgs r' = r_msgs r /\
+  (if ok then exists x, log_append (r_log r) (stamp es (r_term r) (last_index (r_log r) + 1)) = Ok x
+                        /\ r_log r' = fst x
+   else r_log r' = r_log r).
+Proof.
+  unfold append_entry. intros H.
+  destruct (maybe_increase_uncommitted_size r es) as [r1 ok1] eqn:E.
+  apply maybe_increase_uncommitted_size_fr in E. destruct E as (El & Ec & Em).
+  destruct ok1; cbn [negb] in H.
+  - inv_bind H. inversion H; subst. cbn [r_log r_msgs].
+    split; [exact Ec|]. split; [exact Em|]. exists x. rewrite El in Hx.
+    destruct Ec as (_ & _ & _ & _ & _ & Et). rewrite Et in Hx. split; [exact Hx|reflexivity].
+  - inversion H; subst. auto.
+Qed.
+
+Lemma same_ctl_trans a b c : same_ctl a b -> same_ctl b c -> same_ctl a c.
+Proof. unfold same_ctl. intuition congruence. Qed.
+
+(* --- become_leader --- *)
+
+Lemma get_pr_put_pr_ctl r id p : same_ctl r (put_pr r id p).
+Proof. repeat split. Qed.
+
+Theorem become_leader_spec r r' :
+  become_leader r = Ok r' ->
+  r_state r' = Leader /\
+  r_pending_conf_index r' = last_index (r_log r) /\
+  last_index (r_log r') = last_index (r_log r) + 1 /\
+  r_term r' = r_term r /\ conf_of r' = conf_of r /\ r_id r' = r_id r /\
+  r_promotable r' = r_promotable r /\ r_msgs r' = r_msgs r /\
+  (forall p, ConfBoundP (r_log r) p -> ConfBoundP (r_log r') p) /\
+  applied (r_log r') = applied (r_log r) /\ store (r_log r') = store (r_log r).
+Proof.
+  unfold become_leader. intros H.
+  destruct (role_eqb (r_state r) Follower); [discriminate|].
+  inv_bind H. apply reset_fields in Hx.
+  destruct Hx as (_ & _ & Hl & Hc & Hi & Hp & Ht & Hm & _).
+  cbn in H.
+  destruct (negb (last_index (r_log x) =? persisted (r_log x))); [discriminate|].
+  match type of H with match ?g with _ => _ end = _ => destruct g as [pr|] end; [|discriminate].
+  inv_bind H. destruct x0 as [r6 ok]. destruct ok; [|discriminate]. inversion H; subst. clear H.
+  apply append_entry_spec in Hx. destruct Hx as (Hctl & Hmsg & (y & Hy & Hlog)).
+  cbn in Hctl, Hmsg, Hy. destruct Hctl as (A & B & C0 & D & E & F).
+  cbn in A, B, C0, D, E, F.
+  destruct y as [l' z]. cbn [fst] in Hlog.
+  assert (Hne : [entry_default] <> []) by discriminate.
+  assert (Hne' : stamp [entry_default] (r_term x) (last_index (r_log x) + 1) <> []) by discriminate.
+  pose proof (log_append_spec _ _ _ _ Hy Hne') as (Hst & Hap & _).
+  assert (Hnoconf : forall p k e, nth_error [entry_default] k = Some e -> is_conf_entry e = true ->
+                      last_index (r_log x) + N.of_nat k + 1 <= p).
+  { intros p k e Hk Hcf. destruct k as [|[|k]]; cbn in Hk; try discriminate.
+    inversion Hk; subst. discriminate. }
+  assert (Happ : forall p, ConfBoundP (r_log x) p -> ConfBoundP l' p).
+  { intros p Hcb. exact (ConfBoundP_append _ _ _ _ _ p Hy Hne Hcb (Hnoconf p)). }
+  pose proof (log_append_stamp_last _ _ _ _ _ Hy Hne) as Hli. cbn [length] in Hli.
+  fold (conf_of x) in C0. subst l'.
+  rewrite A, B, C0, D, E, F, Hmsg, Hc, Hi, Hp, Ht, Hm, Hst, Hap, Hli. rewrite Hl in *.
+  repeat split; try reflexivity; try lia. exact Happ.
+Qed.
